@@ -63,7 +63,7 @@ func (w *world) storeTips() (ft, bt int, tip int) {
 	return int(fh), int(bh), w.hid(*th)
 }
 
-var liarModes = []string{"omit-c", "omit-c", "extra-c", "opret-c", "adv-true", "adv-silent"}
+var liarModes = []string{"omit-c", "omit-c", "extra-c", "opret-c", "adv-true", "adv-silent", "zero"}
 
 // planRound chooses behaviours for np peers for the batch start..stop.
 func (w *world) planRound(np, start, stop, tip int, forced []string) []*rpeer {
@@ -159,7 +159,7 @@ func (w *world) planRound(np, start, stop, tip int, forced []string) []*rpeer {
 					rp.served[h] = -1
 				}
 				kind = mode
-				if r.Intn(2) == 0 {
+				if r.Intn(2) == 0 || mode == "zero" {
 					break
 				}
 			}
@@ -423,6 +423,17 @@ func tipCase(w *world, nops int) {
 	}
 }
 
+// probeZero: one honest peer and one peer advertising the all-zero filter hash
+// (the "unset" sentinel of checkForCFHeaderMismatch) and serving no filter.
+// Returns true when the false header was committed.
+func probeZero(w *world) bool {
+	w.reset(nil)
+	w.begin("tip", 2, true, 3, 2, " probe zero")
+	w.tipRound(2, true, []string{"honest", "zero"})
+	ft, _, tip := w.storeTips()
+	return ft == 3 && tip != w.trueHdr[len(w.trueHdr)-1]
+}
+
 // probeF12: one honest peer, one peer that does not serve the filter, one peer
 // whose false filter is self-consistent but omits an output script.  Returns
 // true when the false header was committed.
@@ -453,6 +464,15 @@ func run(t *tr.W, thorough bool) {
 		}
 	}
 	t.Stats["probe.f12.tries"] = tries
+	tries = 0
+	for tries < 40 {
+		tries++
+		if probeZero(w) {
+			t.Hit("probe.zero.false-header-committed")
+			break
+		}
+	}
+	t.Stats["probe.zero.tries"] = tries
 	for i := 0; i < 120*budget; i++ {
 		tipCase(w, 3+r.Intn(6))
 	}
